@@ -50,6 +50,9 @@ func (g *customGen[V]) maybeValue(t *T) (V, bool) {
 			}
 			t.cleanup()
 			t.failOnError() // a failure signalled from a cleanup of the skipped attempt is still a failure
+			if r == invalidData(overrunMsg) {
+				panic(r) // an exhausted bitstream stays exhausted: another attempt can not succeed
+			}
 		}
 	}()
 
